@@ -19,16 +19,21 @@ pub const MAGIC: &str = "SENTINEL-MAGIC-7f3a";
 /// names a client may send: 0..ADV are adversarial, the rest are ordinary / symlink names of the export
 pub const NAMES: &[&str] = &[
     ".", "..", "", "a/b", "/", "/outside", "../outside", "..//", "a/../..", "./a", "x/", "../secret", "d/../../outside/file", "lnk_out/file",
-    "a", "b", "d", "sub", "lnk_out", "lnk_file", "lnk_rel", "lnk_up", "lnk_proc", "lnk_chain", "new1", "new2", "moved",
+    "a", "b", "d", "sub", "lnk_out", "lnk_file", "lnk_rel", "lnk_up", "lnk_proc", "lnk_chain", "new1", "new2", "moved", "lnk_dangle", "lnk_dangle_rel",
 ];
 pub const ADV: usize = 14;
-pub const TARGETS: &[&str] = &["/outside", "/outside/file", "../outside", "../../..", "/proc/self/root", "/secret", "../outside/file", "a", "/", "lnk_out"];
+pub const TARGETS: &[&str] = &["/outside", "/outside/file", "../outside", "../../..", "/proc/self/root", "/secret", "../outside/file", "a", "/", "lnk_out", "/outside/dropped3", "../outside/dropped4"];
+/// open flags of CREATE requests
+pub const CREATE_FLAGS: &[i32] = &[libc::O_RDWR | libc::O_TRUNC, libc::O_RDWR, libc::O_WRONLY, libc::O_RDWR | libc::O_EXCL, libc::O_WRONLY | libc::O_APPEND, libc::O_RDONLY];
 
 #[derive(Clone, Debug, Serialize, Deserialize, PartialEq)]
 pub enum Variant {
     Standalone { file_handles: bool },
     VfsPassthrough,
     VfsMock,
+    /// zero-message open negotiated (cache=always): the client does I/O with fh 0
+    StandaloneNoOpen { file_handles: bool },
+    VfsPassthroughNoOpen,
 }
 
 #[derive(Clone, Debug, Serialize, Deserialize, PartialEq)]
@@ -41,6 +46,8 @@ pub enum EOp {
     Read(u16),
     Write(u16),
     Create(u16, u8),
+    /// CREATE with a chosen flag word (index into CREATE_FLAGS)
+    CreateF(u16, u8, u8),
     Mkdir(u16, u8),
     Mknod(u16, u8),
     Symlink(u16, u8, u8),
@@ -83,7 +90,8 @@ fn build_world() {
     std::fs::write("/export/a", b"export-a").unwrap();
     std::fs::write("/export/b", b"export-b").unwrap();
     std::fs::write("/export/d/a", b"export-d-a").unwrap();
-    for (n, t) in [("lnk_out", "/outside"), ("lnk_file", "/outside/file"), ("lnk_rel", "../outside"), ("lnk_up", "../../.."), ("lnk_proc", "/proc/self/root"), ("lnk_chain", "lnk_out")] {
+    // the last two dangle: their targets do not exist (yet) outside the export
+    for (n, t) in [("lnk_out", "/outside"), ("lnk_file", "/outside/file"), ("lnk_rel", "../outside"), ("lnk_up", "../../.."), ("lnk_proc", "/proc/self/root"), ("lnk_chain", "lnk_out"), ("lnk_dangle", "/outside/dropped"), ("lnk_dangle_rel", "../../outside/dropped2")] {
         let _ = sys::symlinkat(t.as_bytes(), libc::AT_FDCWD, format!("/export/{}", n).as_bytes());
         let _ = sys::symlinkat(t.as_bytes(), libc::AT_FDCWD, format!("/export/d/{}", n).as_bytes());
     }
@@ -220,6 +228,9 @@ fn apply<F: FileSystem + Sync>(cl: &mut Client<F>, out: &mut Outcome, op: &EOp) 
                     out.fail("esc/open/symlink-followed", "OPEN on a symbolic link inode succeeded");
                 }
                 cl.handles.push((get(&rep.body, 0, "fuse_open_out", "fh"), id));
+            } else if rep.error == -libc::ENOSYS && ifmt == libc::S_IFREG {
+                // zero-message open: the client goes on with fh 0
+                cl.handles.push((0, id));
             }
         }
         EOp::Read(h) => {
@@ -241,6 +252,12 @@ fn apply<F: FileSystem + Sync>(cl: &mut Client<F>, out: &mut Outcome, op: &EOp) 
             let (p, _) = cl.node(*p);
             let name = nm(*n);
             cl.name_op(out, "create", mkreq("CREATE", p, 0, 0, &[("flags", (libc::O_RDWR | libc::O_TRUNC) as u64), ("mode", 0o644)], &[name.as_bytes()], &[]), &[name], true, false);
+        }
+        EOp::CreateF(p, n, f) => {
+            let (p, _) = cl.node(*p);
+            let name = nm(*n);
+            let flags = CREATE_FLAGS[*f as usize % CREATE_FLAGS.len()];
+            cl.name_op(out, "create", mkreq("CREATE", p, 0, 0, &[("flags", flags as u64), ("mode", 0o644)], &[name.as_bytes()], &[]), &[name], true, false);
         }
         EOp::Mkdir(p, n) => {
             let (p, _) = cl.node(*p);
@@ -442,16 +459,18 @@ pub fn run(cs: &Case) -> Outcome {
     let mut out = Outcome::default();
     build_world();
     match &cs.variant {
-        Variant::Standalone { file_handles } => {
-            out.class("variant:standalone");
-            let cfg = PtCfg { file_handles: *file_handles, use_host_ino: false, ..PtCfg::default() };
+        Variant::Standalone { file_handles } | Variant::StandaloneNoOpen { file_handles } => {
+            let no_open = matches!(cs.variant, Variant::StandaloneNoOpen { .. });
+            out.class(if no_open { "variant:standalone+no_open" } else { "variant:standalone" });
+            let cfg = PtCfg { file_handles: *file_handles, use_host_ino: false, no_open, cache: if no_open { 3 } else { 2 }, ..PtCfg::default() };
             let Some(pt) = Pt::new(&mut out, &cfg, "/export", "/export") else { return out };
             run_with(&mut out, &pt.srv, cs, true, None);
         }
-        Variant::VfsPassthrough => {
-            out.class("variant:vfs+passthrough");
+        Variant::VfsPassthrough | Variant::VfsPassthroughNoOpen => {
+            let no_open = matches!(cs.variant, Variant::VfsPassthroughNoOpen);
+            out.class(if no_open { "variant:vfs+passthrough+no_open" } else { "variant:vfs+passthrough" });
             let mut o = VfsOptions::default();
-            o.no_open = false;
+            o.no_open = no_open;
             o.no_opendir = false;
             let w = VfsWorld::new(o);
             let fs = match PassthroughFs::<()>::new(config_of(&PtCfg::default(), "/export", false)) {
@@ -507,7 +526,8 @@ fn strategy() -> BoxedStrategy<Case> {
         4 => (any::<u16>(), prop_oneof![Just(0u32), Just(2), Just((libc::O_RDWR | libc::O_TRUNC) as u32)]).prop_map(|(n, f)| EOp::Open(n, f)),
         2 => any::<u16>().prop_map(EOp::Read),
         2 => any::<u16>().prop_map(EOp::Write),
-        4 => (any::<u16>(), name.clone()).prop_map(|(p, n)| EOp::Create(p, n)),
+        2 => (any::<u16>(), name.clone()).prop_map(|(p, n)| EOp::Create(p, n)),
+        4 => (any::<u16>(), name.clone(), 0u8..CREATE_FLAGS.len() as u8).prop_map(|(p, n, f)| EOp::CreateF(p, n, f)),
         3 => (any::<u16>(), name.clone()).prop_map(|(p, n)| EOp::Mkdir(p, n)),
         2 => (any::<u16>(), name.clone()).prop_map(|(p, n)| EOp::Mknod(p, n)),
         4 => (any::<u16>(), name.clone(), any::<u8>()).prop_map(|(p, n, t)| EOp::Symlink(p, n, t)),
@@ -526,7 +546,13 @@ fn strategy() -> BoxedStrategy<Case> {
         3 => (any::<u16>(), any::<u8>()).prop_map(|(n, k)| EOp::DotDotChain(n, k)),
     ];
     (
-        prop_oneof![3 => any::<bool>().prop_map(|file_handles| Variant::Standalone { file_handles }), 2 => Just(Variant::VfsPassthrough), 1 => Just(Variant::VfsMock)],
+        prop_oneof![
+            3 => any::<bool>().prop_map(|file_handles| Variant::Standalone { file_handles }),
+            2 => Just(Variant::VfsPassthrough),
+            1 => Just(Variant::VfsMock),
+            2 => any::<bool>().prop_map(|file_handles| Variant::StandaloneNoOpen { file_handles }),
+            1 => Just(Variant::VfsPassthroughNoOpen),
+        ],
         proptest::collection::vec(op, 1..40),
     )
         .prop_map(|(variant, ops)| Case { variant, ops })
